@@ -141,7 +141,9 @@ NumPool == <<
   NaNAtom >>
 
 NumById(id) == NumPool[CHOOSE j \in 1..Len(NumPool) : NumPool[j].id = id]   \* (no LET: TLC would not cache constants built from it)
-NA(id) == Num(NumById(id))                       \* number term from the pool by id
+\* number term from the pool by id.  Written out (not Num(NumById(id))): TLC does not pre-evaluate and
+\* cache constant definitions whose body passes a parameter through two operator levels.
+NA(id) == [t |-> "num", v |-> NumPool[CHOOSE j \in 1..Len(NumPool) : NumPool[j].id = id]]
 
 \* well-formedness of a set of number atoms sharing one rank scale
 NumTableOK(S) ==
@@ -229,7 +231,7 @@ TypeOrderOK(obs) ==
   /\ \A i, j, k \in 1..n : (obs[i][j] = -1 /\ obs[j][k] = -1) => obs[i][k] = -1
 
 (* ------------------------------ the value pool ------------------------------ *)
-S(bs) == Str(bs)
+S(bs) == [t |-> "str", v |-> bs]     \* written out, see NA
 StrPool == <<
   S(<<>>), S(<<97>>), S(<<97, 98>>), S(<<98>>), S(<<122>>),            \* "" a ab b z
   S(<<97, 255>>), S(<<255>>),                                           \* a\xff  \xff  (invalid UTF-8)
